@@ -58,7 +58,7 @@ PENDING_FINDINGS: list[str] = ["generator-crashes/VariableDensityPoisson/active-
 MOD = "props.c07"
 # property-level theorems kept in their own modules (fast builds) + the helper lemmas: hygiene-checked and axiom-audited too
 EXTRA_LEAN_MODULES = ["DirectVerif.Lemmas.C07", "DirectVerif.Lemmas.C07Equi", "DirectVerif.Lemmas.C07Magic",
-                      "DirectVerif.Lemmas.C07Bisect", "DirectVerif.Lemmas.C07Random", "DirectVerif.Lemmas.C07RandomProps", "DirectVerif.Lemmas.C07State"]
+                      "DirectVerif.Lemmas.C07Bisect", "DirectVerif.Lemmas.C07Random", "DirectVerif.Lemmas.C07RandomProps", "DirectVerif.Lemmas.C07State", "DirectVerif.Lemmas.C07Ties"]
 DYADIC_R = [2.5, 5.5, 3.25, 7.75, 10.5]
 ENUM_R = [2, 3, 4, 5, 6, 7, 8, 9, 10, 11, 12, 2.5, 5.5]
 ENUM_CF = [0.02, 0.04, 0.06, 0.08]
@@ -101,6 +101,33 @@ def equi_fragile(N: int, L: int, R: Fraction, off: int | None = None) -> bool:
             if (2 * (o + j * a)).denominator == 1 and (o + j * a).denominator != 1:
                 return True
     return False
+
+
+def equi_tie_inputs(N: int, L: int, R: Fraction, off: int, sampled: set[int]) -> tuple[list[int], int, int] | None:
+    """for a tie-fragile configuration: which exact ties the code rounded up and whether its grid got one more point, read
+    off the real mask (`sampled` = sampled columns).  Exact rational arithmetic; only decides between the two candidate
+    columns of an exact half-integer grid point (the model ignores the answer everywhere else)."""
+    den = L * R - N
+    if den == 0:
+        return None
+    a = R * (L - N) / den
+    if a < 2:
+        return None          # neighbours could hit a tie's candidate columns: outside the property's range (R >= 2)
+    pad = (N - L + 1) // 2
+    in_acs = lambda c: pad <= c < pad + L  # noqa: E731
+    qlen = (N - 1 - off) / a
+    m = max(math.ceil(qlen), 0)
+    ups, nties = [], 0
+    for j in range(m):
+        x = off + j * a
+        if x.denominator == 2:
+            nties += 1
+            k = math.floor(x)
+            lo_s, hi_s = k in sampled, (k + 1) in sampled
+            if hi_s and (not lo_s or (in_acs(k) and not in_acs(k + 1))):
+                ups.append(j)
+    extra = 1 if (qlen.denominator == 1 and (N - 1) in sampled and not in_acs(N - 1)) else 0
+    return ups, extra, nties
 
 
 # =================================================================================================
@@ -268,11 +295,28 @@ def _one_case(mf, conf: dict, shape, seed, acs_ref: dict | None = None) -> dict:
             return None
 
         sys.settrace(tracer)
+    circus_m: list = []
+    if conf["gen"] in ("Radial", "Spiral"):
+        import sys
+
+        ccodes = {mf.circus_radial_mask.__func__.__code__, mf.circus_spiral_mask.__func__.__code__}
+
+        def ctracer(frame, event, arg):
+            if event == "call" and frame.f_code in ccodes:
+                def local(frame, event, arg):
+                    if event == "return":
+                        circus_m.append(int(frame.f_locals.get("M", -1)))
+                    return local
+                return local
+            return None
+
+        sys.settrace(ctracer)
     try:
         r = RC.run_call(mf, shape, False, seed, keep_values=True)
     finally:
-        if conf["gen"] == "VariableDensityPoisson":
+        if conf["gen"] in ("VariableDensityPoisson", "Radial", "Spiral"):
             sys.settrace(None)
+    out["circus_M"] = circus_m
     for rec in pframes:
         rec.pop("last", None)
     out["err"] = r["err"]
@@ -422,7 +466,8 @@ def job_equi_enum(args: dict) -> list:
                 bound = None
             else:
                 bound = rnd_half_even(Rq * (L - N) / den)
-            counts, err = [], None
+            counts, err, rows_out = [], None, []
+            fragile = bound is not None and bound > 0 and equi_fragile(N, L, Rq)
             if bound is None or bound <= 0:
                 try:
                     mf(shape, seed=0)
@@ -433,11 +478,15 @@ def job_equi_enum(args: dict) -> list:
                 for off in range(bound):
                     frc.off = off
                     try:
-                        counts.append(int(mf(shape, seed=0).sum()))
+                        mk = mf(shape, seed=0)
+                        counts.append(int(mk.sum()))
+                        if fragile:
+                            rows_out.append([int(i) for i in np.flatnonzero(mk.reshape(-1).numpy())])
                     except Exception as e:  # noqa: BLE001
                         err = type(e).__name__
                         break
-            res.append({"gen": gen, "R": R, "cf": cf, "N": N, "L": L, "counts": counts, "err": err})
+            res.append({"gen": gen, "R": R, "cf": cf, "N": N, "L": L, "counts": counts, "err": err,
+                        "rows": rows_out if fragile else None})
     return res
 
 
@@ -516,6 +565,8 @@ def gen_cases(ctx: Ctx) -> list[dict]:
                 elif rng.random() < 0.3:
                     kw["slopes"] = rng.choice([[0, 20], [0.5, 60], [0, 200]])
                 conf["kwargs"] = kw
+            if gen in ("Radial", "Spiral") and i % 3 == 2:
+                conf["center_fractions"] = [0]          # no centre disc requested: the ACS is searched inside the pattern
             if gen == "KtRadial":
                 conf["mode"] = "dynamic"
                 conf["kwargs"] = {"crop_corner": i % 2 == 1}
@@ -543,6 +594,10 @@ def gen_cases(ctx: Ctx) -> list[dict]:
     add("VariableDensityPoisson", q(2, 8), [32, 48], two_d=True, multi=2)
     for g in ("FastMRIRandom", "CartesianEquispaced", "FastMRIMagic"):
         add(g, q(1, 3), None, cart=g.startswith("Cartesian"), uniform=True)
+    # CIRCUS: no documented number; the pick arithmetic (M per nested square, ACS-adjusted acceleration) is tied and the
+    # one-sided pick budget judged
+    add("Radial", q(4, 16), [24, 32, 33, 40, 48], two_d=True)
+    add("Spiral", q(4, 16), [24, 32, 33, 40, 48], two_d=True)
     add("KtUniform", q(4, 16), [32, 48, 64, 96], two_d=True, modes=["dynamic"])       # budgets reported, not judged
     add("KtGaussian1D", q(4, 16), [32, 48, 64, 96], two_d=True, modes=["dynamic"])
     add("FastMRIMagic", q(9, 40), None, infeasible=0.2)     # characterised exactly (count formula), not judged against N/R
@@ -856,15 +911,28 @@ def _correspondence(ctx: Ctx, run: dict):
                    "bucket": f"equienum/rejected-{e['err']}", "src": src}
             continue
         if equi_fragile(N, L, Rq):
-            skipped_fragile += 1
+            if not e.get("rows") or len(e["rows"]) != len(e["counts"]):
+                skipped_fragile += 1
+                continue
+            pad = (N - L + 1) // 2
+            for off, cols_ in enumerate(e["rows"]):
+                ti = equi_tie_inputs(N, L, Rq, off, set(cols_))
+                if ti is None:
+                    skipped_fragile += 1
+                    break
+                outside = [i for i in cols_ if not pad <= i < pad + L]
+                ans = "ok %d %d %d | %s" % (e["counts"][off], len(e["counts"]), ti[2], " ".join(map(str, outside)))
+                yield {"line": line("equit", [N, L, Rn, Rd, off, ti[1]], ti[0]), "impl": (lambda a=ans: a),
+                       "nontrivial": e["counts"][off] > L, "bucket": f"equit/enum/{e['gen']}" + ("/ties" if ti[2] else "/exact-length"),
+                       "src": dict(src, offset=off)}
             continue
         ans = "ok %d | %s" % (len(e["counts"]), " ".join(map(str, e["counts"])))
         yield {"line": line("equienum", [N, L, Rn, Rd]), "impl": (lambda a=ans: a),
                "nontrivial": any(cc > L for cc in e["counts"]), "bucket": f"equienum/{e['gen']}", "src": src}
     skipped_fragile += run.get("_fragile_cases", 0)
-    ctx.notes.append(f"equispaced: {skipped_fragile} tie-fragile configurations excluded from the exact comparison "
-                     f"(non-dyadic adjusted acceleration with an exact half-integer grid point / exact integer grid length); "
-                     f"they are covered by the oracle's bound")
+    ctx.notes.append(f"equispaced: tie-fragile configurations (non-dyadic adjusted acceleration with an exact half-integer grid "
+                     f"point / exact integer grid length) are compared through `equit` with the tie directions read off the real "
+                     f"mask; {skipped_fragile} could not be (adjusted acceleration < 2) and are covered by the oracle's bound only")
 
 
 def _case_lines(ctx: Ctx, c: dict):
@@ -921,11 +989,20 @@ def _case_lines(ctx: Ctx, c: dict):
             a = Rq * (L - N) / den
             for f, e in enumerate(offs):
                 off = e["value"][0]
-                if equi_fragile(N, L, Rq, off):
-                    _RUN["_fragile_cases"] = _RUN.get("_fragile_cases", 0) + 1
-                    continue
                 acs_row = res["acs_row"][min(f, len(res["acs_row"]) - 1)]
                 cnt = sum(res["row"][f])
+                if equi_fragile(N, L, Rq, off):
+                    # exact tie(s): the binary64 grid decides their direction; read it off the real mask, the model does the rest
+                    ti = equi_tie_inputs(N, L, Rq, off, {i for i, v in enumerate(res["row"][f]) if v})
+                    if ti is None:
+                        _RUN["_fragile_cases"] = _RUN.get("_fragile_cases", 0) + 1
+                        continue
+                    outside = [i for i, v in enumerate(res["row"][f]) if v and not acs_row[i]]
+                    high = int(e["req"].split("(", 1)[1].split(")")[0].split(",")[1])
+                    ans = "ok %d %d %d | %s" % (cnt, high, ti[2], " ".join(map(str, outside)))
+                    yield {"line": line("equit", [N, L, Rn, Rd, off, ti[1]], ti[0]), "impl": (lambda a=ans: a),
+                           "nontrivial": cnt > L, "bucket": f"equit/{gen}/{mode}"}
+                    continue
                 # from the real mask: the count, the sampled columns outside the ACS block; from the recorded request
                 # `randint(0, high)`: the offset bound
                 outside = [i for i, v in enumerate(res["row"][f]) if v and not acs_row[i]]
@@ -950,6 +1027,13 @@ def _case_lines(ctx: Ctx, c: dict):
                 yield {"line": line("gauss2d", [rows, N, Rn, Rd], res["acs_bits"][min(f, len(res["acs_bits"]) - 1)], res["cands"][f]),
                        "impl": (lambda a=ans: a), "nontrivial": k >= 0,
                        "bucket": f"gauss2d/{mode}/" + ("multi/" if multi else "") + ("feasible" if k >= 0 else "infeasible")}
+        elif gen in ("Radial", "Spiral") and res["err"] is None and res.get("circus_M"):
+            no_disc = _chosen_cf(c) == 0
+            Ld = 0 if no_disc else res["acs_count"][0]
+            nsq = (max(rows, N) - max(rows, N) % 2) // 2
+            for f, m_real in enumerate(res["circus_M"]):
+                yield {"line": line("circusm", [rows, N, Rn, Rd, Ld, m_real]), "impl": (lambda a="ok 1 %d" % nsq: a),
+                       "nontrivial": m_real > 0, "bucket": f"circus/{gen}/{mode}/" + ("no-disc" if no_disc else "disc")}
         elif gen.endswith("Magic"):
             l_raw = _magic_lraw(N, _chosen_cf(c))
             offs = _frame_draws(res["log"], "randint")
@@ -1105,6 +1189,17 @@ def oracle(ctx: Ctx, deep: bool = False):
                     yield Violation("poisson-tolerance" + ("/crop_corner" if crop else ""),
                                     f"VD-Poisson (options {kw}) returned a mask with |R_actual - R| = {d:.3f} >= tol {tol}",
                                     dict(rep, frame=f, observed=cnt, expected=target, realised_acceleration=total / cnt if cnt else None))
+            elif gen in ("Radial", "Spiral"):
+                # no documented number; judged one-sidedly: M picks on each nested square can sample at most M cells each
+                ms = res.get("circus_M") or []
+                nsq = (max(rows, cols) - max(rows, cols) % 2) // 2
+                worst.setdefault("circus", 0.0)
+                worst["circus"] = max(worst["circus"], abs(total / cnt - R) if cnt else float("inf"))
+                Ld = 0 if float(_chosen_cf(c)) == 0 else L
+                if ms and cnt - Ld > ms[min(f, len(ms) - 1)] * nsq:
+                    yield Violation(f"circus-pick-budget/{gen}", f"{gen}: {cnt - Ld} cells outside the centre disc with M = "
+                                    f"{ms[min(f, len(ms) - 1)]} picks on each of {nsq} nested squares",
+                                    dict(rep, frame=f, observed=cnt, acs=Ld, picks=ms[min(f, len(ms) - 1)] * nsq))
             elif gen in ("KtUniform", "KtGaussian1D"):
                 pass      # reported per volume below
             elif gen == "KtRadial":
@@ -1209,7 +1304,8 @@ def oracle(ctx: Ctx, deep: bool = False):
                      f"samples, poisson |R_actual-R|/tol {worst['poisson']:.3f} (crop_corner=False) {worst['poisson_crop']:.3f} "
                      f"(crop_corner=True), VD-Poisson cases with options {n_opts}; reported, not judged: Magic generators "
                      f"{magic_dev:.2f} cols, KtRadial |R_actual-R| {worst['ktradial']:.2f} (crop_corner=False) "
-                     f"{worst['ktradial_crop']:.2f} (crop_corner=True), realised minus requested acceleration over the k-t volume: "
+                     f"{worst['ktradial_crop']:.2f} (crop_corner=True), Radial/Spiral |R_actual-R| {worst.get('circus', 0.0):.2f} "
+                     f"(pick budget judged), realised minus requested acceleration over the k-t volume: "
                      + "; ".join(f"{g} min {min(v):.2f} max {max(v):.2f} over {len(v)}" for g, v in sorted(kt_report.items())))
 
 
@@ -1217,9 +1313,11 @@ _OP_WHAT = {
     "random": "random line mask of one frame for the recorded uniforms",
     "equi": "equispaced frame (count, offset bound, grid columns outside the ACS) for the drawn offset",
     "equienum": "equispaced counts for every offset the generator can draw",
+    "equit": "equispaced frame at exact ties (tie directions read off the real mask; everything else from the model)",
     "gauss1d": "Gaussian 1-D request and mask for the replayed libc candidate stream",
     "gauss2d": "Gaussian 2-D request and count for the replayed libc candidate stream",
     "choose": "which (acceleration, centre fraction) pair the call uses",
+    "circusm": "CIRCUS: number of picks per nested square for the (ACS-adjusted) acceleration",
     "magic": "Magic (offset) frame: #ACS, integer step, count and columns for the drawn offsets",
     "bisectiv": "VD-Poisson bisection: outcome, iterations, probed slopes (binary64 midpoint), acceleration of the returned mask",
 }
